@@ -5,7 +5,7 @@ import os, json, shutil, re, sys
 SRC = "/var/tmp/seedsrc"
 OUT = "/verif/seeded"
 conf = {}
-for f in ("/var/tmp/confirm_all.txt", "/var/tmp/confirm_all2.txt", "/var/tmp/confirm_all3.txt", "/var/tmp/confirm_all4.txt", "/var/tmp/confirm_all5.txt", "/var/tmp/confirm_all6.txt"):
+for f in ("/var/tmp/confirm_all.txt", "/var/tmp/confirm_all2.txt", "/var/tmp/confirm_all3.txt", "/var/tmp/confirm_all4.txt", "/var/tmp/confirm_all5.txt", "/var/tmp/confirm_all6.txt", "/var/tmp/confirm_all7.txt"):
     if os.path.exists(f):
         for line in open(f):
             m = re.match(r"(\S+) suite_with_change_rc=(\d+) failed_targets=(\d+) demo_with_change_rc=(\d+) demo_without_change_rc=(\d+)", line)
@@ -63,6 +63,19 @@ T = {  # id: (property, needs to manifest, demo features, caught by)
  "C10v": ("C10", "tell_with_timeout on a full mailbox, actor dies before the deadline: send_timeout's Closed is reported as Timeout (retryable, early)", "-", "undecided by extraction (send_timeout) -> bounded stand-in: explorer O8/O9"),
  "C16v": ("C16", "TellHandler::tell_with_timeout with Duration::ZERO on a full mailbox: routed to the unbounded tell", "-", "deductive: erased.tell_with_timeout.same_relation_as_inherent"),
  "C20": ("C20", "handler panics / task aborted while the handler is suspended: inline timing after the handler instead of the RAII guard loses the count", "metrics", "deductive: lifecycle.inv.metrics_guard_closed (guard must be opened before the handler)"),
+ # ---- round 7: a bug hidden inside a refactoring
+ "C01w": ("C01", "blocking_tell(Some(d)) on a full mailbox: merged helper moves the deadline to the caller side (recv_timeout); Timeout is reported but the helper thread still delivers the message", "-", "bounded stand-in (always on for C01/C10/C17): scenario blocking_timeout - the changed code (blocking_*_with_timeout_impl) is not under contract"),
+ "C04w": ("C04", "last reference dropped: on_stop call sites merged behind enum StopCause whose Terminate variant is always 'forced': on_stop(killed=true) without a kill", "-", "undecided deductively (new enum / helper with early exits) -> bounded stand-in: explorer O5"),
+ "C07w": ("C07", "stop() on a full mailbox: kill()/stop() outcome handling merged, stop() now uses try_send and the Full arm returns Ok - the marker is dropped, the actor never ends", "-", "deductive: stop.relation (a waiting send, never TryFull)"),
+ "C12w": ("C12", "a detected deadlock panics while the wait-for lock guard is alive (drop(graph) lost when format_cycle_path was inlined into panic!): the mutex is poisoned for every later ask", "deadlock-detection", "undecided deductively (registration moved into a new associated fn with early exits) -> bounded stand-in: dd scenarios"),
+ "C09w": ("C09", "spawn() before the first set_default_mailbox_capacity: default lookup extracted into a helper that uses get_or_init - a read that writes 32 into the OnceLock, the first real configuration fails", "-", "deductive: spawn_default.effects_exactly / mailbox_bound (helper inlined by rule R12; OnceLock::get_or_init added to the shim as a read that writes)"),
+ "C10w": ("C10", "ask_with_timeout under back-pressure: send_timeout(d) for the send, then d again for the reply - up to 2d", "-", "undecided deductively (send_timeout, new helpers) -> bounded stand-in: explorer O8 / blocking_timeout"),
+ "C13w": ("C13", "tell_with_timeout: `.unwrap_or(Err(self.timed_out(..)))` evaluates its argument eagerly - a Timeout dead letter on every call, including successful ones", "test-utils", "deductive: tell_with_timeout.dead_letters (helper inlined by R12)"),
+ "C17w": ("C17", "tell_blocking / ask_blocking (deprecated aliases that must ignore their timeout) now forward it: Timeout on a full mailbox instead of waiting", "-", "deductive: tell_blocking.alias_ignores_timeout, ask_blocking.alias_ignores_timeout (renamed private fns no longer make the unit unextractable); witness blocking_timeout reproduces"),
+ "C14w": ("C14", "asks made from on_stop: the three on_stop call sites go through a helper that lost the run_with_actor_scope! wrapper - untracked, cycles through them hang", "deadlock-detection", "deductive: hook.inside_actor_scope (precondition of on_stop; helper inlined by R12)"),
+ "C15w": ("C15", "WaitForGuard built with the callee's id instead of the caller's: Drop removes the wrong key, the edge stays, a later reverse ask panics with a false deadlock", "deadlock-detection", "undecided deductively (registration moved into WaitForGuard::enter) -> bounded stand-in: dd scenarios (dd_no_residue)"),
+ "C16w": ("C16", "timed-out tell/ask through a boxed handler: *_with_timeout become provided trait methods over tell/ask + a deadline helper - Error::Timeout is reproduced, the dead letter is not", "test-utils", "undecided deductively: the R4 guard refuses a future passed to a helper (before the guard this text VERIFIED - a soundness hole closed by this seed) -> bounded stand-in: scenario erased_handles (now checks dead letters of timed-out erased sends)"),
+ "C20w": ("C20", "graceful stop: the metrics guard hoisted above `match maybe_message` is created for the stop marker too - message_count + 1 and on_stop time in the averages", "metrics", "undecided deductively (guard wrapped in Option::map) -> bounded stand-in: scenario metrics_counts"),
 }
 os.makedirs(OUT, exist_ok=True)
 for sid, (prop, needs, feats, caught) in sorted(T.items()):
